@@ -54,6 +54,14 @@ func nhScenarioMember(rec *nhRec, tid int, seed int64, smType string, store stri
 	var wg sync.WaitGroup
 	var opid int64
 	var quiet int32 // the background writer pauses (quiet join below)
+	// on-disk state machines, one trace per batch: nothing at all is written before the first member joins - the
+	// snapshot it is streamed is the (possibly empty) image of a state machine that has applied no update
+	// (the last trace of a batch: the finding recorded for it takes the process down)
+	virgin := smType == "ondisk" && nhEnvInt("VERIF_NH_VIRGIN", 0) == 1 && tid == nhEnvInt("VERIF_FIRST", 0)+nhEnvInt("VERIF_TRACES", 4)-1
+	if virgin {
+		quiet = 1
+		c.emptyImage = true
+	}
 	wg.Add(1)
 	go func() {
 		defer wg.Done()
@@ -201,10 +209,14 @@ func nhScenarioMember(rec *nhRec, tid int, seed int64, smType string, store stri
 		}
 		idx := ccid
 		x := rng.Intn(100)
+		if virgin {
+			x = 0
+		}
 		switch {
 		case x < 18 && len(spare) > 0: // new voter
 			id := spare[0]
-			quietJoin := rng.Intn(2) == 0
+			quietJoin := rng.Intn(2) == 0 || virgin
+			virgin = false
 			if quietJoin {
 				// nothing is written while the new member joins: the last applied entry is the
 				// membership change itself, the joiner is brought up to date by a snapshot whose index
